@@ -176,7 +176,7 @@ def cylinder(r=1, h=1, center=(0,0,0), axis=(0,0,1), xaxis=(1,0,0), type='radial
     :return: The cylinder
     :rtype: Volume
     """
-    return extrude(surface_factory.disc(r, center, axis, xaxis=xaxis, type=type), h*np.array(axis))
+    return extrude(surface_factory.disc(r, center, axis, xaxis=xaxis, type=type), h*np.array(axis)/np.linalg.norm(axis))
 
 
 def extrude(surf, amount):
